@@ -11,6 +11,10 @@
      - `for-in/of` may iterate any number of times (also zero);
      - a `switch` may jump to any of its cases (to `default` when nothing matches),
        and past all of them when it has no `default`; evaluating a case test that is a call may throw;
+     - function declarations are HOISTED: a function declared anywhere directly in a statement list (a function
+       body, a block, the consequent of a switch case) can be called as soon as that list is entered - also when
+       the declaration stands after a `return` / `throw` / `break`, so that the declaration statement itself is
+       never reached (rule NL_hoist);
      - a nested function may be called by anyone, so its body may be entered, and
        evaluating a function declaration / arrow expression / object literal with a getter
        completes normally; the same holds for a function-like in the head of a for-in/of
@@ -155,6 +159,8 @@ Inductive enters : stmt -> N -> Prop :=
 with enters_l : stmts -> N -> Prop :=
 | NL_here s r pi : enters s pi -> enters_l (SCons s r) pi
 | NL_next s r pi : exec [] s Normal -> enters_l r pi -> enters_l (SCons s r) pi
+(* hoisting: `l` is entered, `function g(){b}` is one of its statements (anywhere), somebody calls g *)
+| NL_hoist l p n pb b pi : In (SFnDecl p n pb b) (stmts_to_list l) -> enters_l b pi -> enters_l l pi
 
 (* every case of an entered switch can be jumped to *)
 with enters_c : cases -> N -> Prop :=
